@@ -112,8 +112,7 @@ Position::Position(std::string fen) : _zobrist_hash()
 
     _zobrist_hash.init(*this);
 
-    _history[0] = _zobrist_hash.get_key();
-    _history_counter = 1;
+    _history.push_back(_zobrist_hash.get_key());
 }
 
 bool Position::operator==(const Position& other) const
@@ -193,7 +192,7 @@ bool Position::is_draw() const
 bool Position::threefold_repetition() const
 {
     int count = 1;
-    for (int i = _history_counter - 2; i >= 0; --i)
+    for (int i = int(_history.size()) - 2; i >= 0; --i)
         if (_history[i] == _zobrist_hash.get_key())
             if (++count == 3) return true;
     return false;
@@ -201,7 +200,7 @@ bool Position::threefold_repetition() const
 
 bool Position::is_repeated() const
 {
-    for (int i = _history_counter - 2; i >= 0; --i)
+    for (int i = int(_history.size()) - 2; i >= 0; --i)
         if (_history[i] == _zobrist_hash.get_key()) return true;
     return false;
 }
@@ -531,8 +530,7 @@ MoveInfo Position::do_move(Move move)
             set_enpassant_square(NO_SQUARE);
     }
 
-    assert(_history_counter < MAX_PLIES);
-    _history[_history_counter++] = _zobrist_hash.get_key();
+    _history.push_back(_zobrist_hash.get_key());
 
     return create_moveinfo(captured, prev_castling, prev_enpassant_sq,
                            enpassant, hm_counter);
@@ -592,7 +590,7 @@ void Position::undo_move(Move move, MoveInfo moveinfo)
         if (captured != NO_PIECE) add_piece(captured, to(move));
     }
 
-    _history_counter--;
+    _history.pop_back();
 }
 
 void Position::set_enpassant_square(Square sq)
